@@ -22,9 +22,13 @@ ValueShapes(hasColonArg, hasSuffixMods) ==
    AvArr(V1, FALSE, Undefined, FALSE, <<>>),
    AvArr(ArrLit(<<V1, Lit(Num(1))>>), FALSE, Undefined, FALSE, <<>>),           \* v-foo={[[v, 1]]}: the value is the array
    AvArr(ArrLit(<<ArrLit(<<V1>>)>>), FALSE, Undefined, FALSE, <<>>)}
-  \cup (IF hasColonArg THEN {} ELSE {AvArr(V1, TRUE, A1, FALSE, <<>>), AvArr(V1, TRUE, Lit(S(<<122>>)), FALSE, <<>>)})
-  \cup (IF hasSuffixMods THEN {} ELSE {AvArr(V1, FALSE, Undefined, TRUE, <<"m", "n">>), AvArr(V1, FALSE, Undefined, TRUE, <<>>)})
-  \cup (IF hasColonArg \/ hasSuffixMods THEN {} ELSE {AvArr(V1, TRUE, A1, TRUE, <<"m">>), AvArr(ArrLit(<<V1, A1>>), TRUE, A1, TRUE, <<"m">>)})
+  \* an argument both in the name and in the array: the property does not rank them (either is accepted, Denote!DirArg);
+  \* the modifier list of the array and the `_suffix` modifiers are never combined in one directive
+  \cup {AvArr(V1, TRUE, A1, FALSE, <<>>)}
+  \cup (IF hasColonArg THEN {} ELSE {AvArr(V1, TRUE, Lit(S(<<122>>)), FALSE, <<>>)})
+  \cup (IF hasSuffixMods THEN {} ELSE {AvArr(V1, FALSE, Undefined, TRUE, <<"m", "n">>), AvArr(V1, FALSE, Undefined, TRUE, <<>>),
+                                       AvArr(V1, TRUE, A1, TRUE, <<"m">>)})
+  \cup (IF hasColonArg \/ hasSuffixMods THEN {} ELSE {AvArr(ArrLit(<<V1, A1>>), TRUE, A1, TRUE, <<"m">>)})
 
 Dirs == {Dir(sp[1], sp[2], sp[3], ms, val) :
            sp \in Spellings, ms \in ModSuffixes, val \in UNION {ValueShapes(a, m) : a \in BOOLEAN, m \in BOOLEAN}}
